@@ -1,4 +1,5 @@
 mod exchange;
+mod charset;
 mod genx;
 mod head;
 mod hostile;
@@ -125,6 +126,15 @@ fn run_all(kind: &str, input: &str, outdir: &str, threads: usize, budget: Durati
                                 _ => exchange::run(&sc),
                             },
                             "hostile" => hostile::run(&sc),
+                            "charset" => {
+                                if util::gs(&sc, "kind") == "charset" {
+                                    let thorough = std::env::var("VERIF_TIER").map(|t| t == "thorough").unwrap_or(false);
+                                    let seed: u64 = std::env::var("VERIF_SEED").ok().and_then(|s| s.parse().ok()).unwrap_or(1);
+                                    charset::expand(&sc, i, seed, thorough).iter().flat_map(charset::run).collect()
+                                } else {
+                                    charset::run(&sc)
+                                }
+                            }
                             "head" => head::expand(&sc, i).iter().flat_map(head::run).collect(),
                             _ => panic!("unknown runner {}", kind),
                         };
@@ -190,6 +200,7 @@ fn main() {
             let seed: u64 = arg(&args, "--seed").and_then(|s| s.parse().ok()).unwrap_or(1);
             let tier = arg(&args, "--tier").unwrap_or("quick".into());
             let scs: Vec<String> = match family.as_str() {
+                "charset_split" => charset::generate(seed, &tier).into_iter().map(|v| v.to_string()).collect(),
                 "hostile" => hostile::generate(seed, &tier).into_iter().map(|v| v.to_string()).collect(),
                 "h_large" => head::generate(seed, &tier).into_iter().map(|v| v.to_string()).collect(),
                 _ => genx::generate(&family, seed, &tier),
